@@ -167,6 +167,9 @@ class Ctl:
         self.decisions = []          # [options, chosen, current] for multi-choice decisions
         self.steps = 0
         self.max_steps = max_steps
+        self.zero_iters = 0            # event-loop iterations that found ready callbacks (no virtual time passes)
+        self.zero_at_tick = 0
+        self.max_zero_iters = 20000
         self.steps_at_tick = 0
         self.finished = threading.Event()
         self.status = None
@@ -290,6 +293,7 @@ class Ctl:
             if to > self.now:
                 self.now = to
                 self.steps_at_tick = self.steps
+                self.zero_at_tick = self.zero_iters
                 self.log('Tick')
             for t in pend:
                 if t.deadline is not None and t.deadline <= self.now:
@@ -321,6 +325,14 @@ class Ctl:
         me.sem.acquire()
         if self.finished.is_set() and self.status != 'ok':
             raise Hang()
+
+    def spin_hang(self):
+        me = self.me()
+        with self.mu:
+            if not self.finished.is_set():
+                self.log('Hang', why='spin', thr=[me.name if me else '?'])
+                self._end('hang')
+        raise Hang()
 
     # ---- yield points
     def point(self, kind='harness', info=None):
@@ -735,6 +747,11 @@ class FakeSelector(selectors.BaseSelector):
     def select(self, timeout=None):
         ctl = CTL
         if timeout is not None and timeout <= 0:
+            # the loop has ready callbacks: no yield to the scheduler.  A loop that keeps doing this for ever
+            # without virtual time advancing is spinning (a livelock of the code under test), not slow.
+            ctl.zero_iters += 1
+            if ctl.zero_iters - ctl.zero_at_tick > ctl.max_zero_iters:
+                ctl.spin_hang()
             return []
         ctl.idle(None if timeout is None else ctl.now + timeout)
         return []
